@@ -1,9 +1,11 @@
 """C04 (async-formatted message = call-site formatting; deep copy; reserved = written = consumed) and
 C11 (steady-state log call neither allocates nor formats on the caller).
 Proof: Props/C04.lean, Props/C11.lean + Obligations/Codec.lean, Obligations/CodecAlloc.lean.
-Tie: tools/extractors/codec.py + harness H3 (h3_codec.cpp, six parallel translation units over ~70 compile-time argument
-shapes, real Codec<T> / detail::encode / LOG_* → queue → ManualBackendWorker → recording sink) and H5 (h5_alloc.cpp,
-interposed allocators + formatter thread ids) vs the Lean driver `codec`."""
+Tie: tools/extractors/codec.py + harness H3 (h3_codec.cpp, seven translation units over ~70 compile-time argument
+shapes, real Codec<T> / detail::encode / LOG_* → queue → ManualBackendWorker → recording sink; part 7 = statements logged
+after statements that a full BoundedDropping queue DROPPED between the size pass and the encode pass) and H5
+(h5_alloc.cpp, interposed allocators + formatter thread ids; the expected allocations come from the model, which the
+driver carries per calling thread from its first call on) vs the Lean driver `codec`."""
 import concurrent.futures
 import os
 import re
@@ -14,13 +16,13 @@ PROPS = ["C04", "C11"]
 
 MANIFEST = {
     "C04": dict(
-        technique="Lean 4 proof by structural induction over argument values and argument lists (size pass = encode length, cache-index alignment, decode∘encode = documented view, framing, sanitiser); extraction of the container table / frame / predicate; differential correspondence on ~70 compile-time shapes; call-site fmt oracle through the real LOG_* → backend path",
-        text="Machine-checked proof (Lean 4), for every argument value built from arithmetic/enum/pointer objects, C strings incl. null, char[N] with or without terminator, std::string/string_view with arbitrary bytes, every quill/std container (with the arithmetic shortcuts and forward_list's cached count), optional, pair, tuple, deferred-format POD and aligned non-POD, direct-format, StringRef and filesystem path, nested arbitrarily, and for every argument list, prior size-cache content/capacity and buffer address: the size pass reserves exactly the bytes the encode pass writes; the encode pass reads exactly the cache entries the size pass pushed, in order (empty optionals, shortcuts that push nothing, more than 12 entries after heap growth); decoding the written bytes at the statement's static shape consumes exactly those bytes and yields the documented value (C string cut at the first NUL, char[N] cut at NUL or N, std::string all bytes, null pointer ↦ empty), so the value seen by the backend is a function of the record alone (deep copy); header + arguments + optional 1-byte dynamic level: reserved = written = consumed; the sanitiser replaces exactly the bytes failing the printable predicate by \\xHH and is the identity otherwise. PARTIAL: libfmt is not modelled — 'text equals call-site formatting' is proved only up to 'fmt is a function of (format string, decoded values)' (C04_text_partial); that last step is tested by the harness oracle (fmtquill::format at the call site before the call vs the sink message after the arguments were overwritten and destroyed, every macro family). Tied to the code by extraction (inline capacity, header formula, dynamic-level accounting, per-container prefix/shortcut/predicate table, clearing rule, printable predicate, escape format) with re-proved obligations, and by differential execution of the real Codec<T>::compute_encoded_size/encode/decode_arg, detail::encode/decode_and_store_args and the real macros against the model (size, cache content and capacity, cache index, hex of the bytes, bytes consumed, decoded view, queue bytes reserved/consumed).",
+        technique="Lean 4 proof by structural induction over argument values and argument lists (size pass = encode length, cache-index alignment, decode∘encode = documented view, framing, sanitiser) and over histories of logged / dropped statements on one thread's size cache; extraction of the container table / frame / predicate / position of the cache clear(); differential correspondence on ~70 compile-time shapes; call-site fmt oracle through the real LOG_* → backend path, including statements logged after statements that a full dropping queue dropped (or an over-the-maximum record rejected) between the two passes",
+        text="Machine-checked proof (Lean 4), for every argument value built from arithmetic/enum/pointer objects, C strings incl. null, char[N] with or without terminator, std::string/string_view with arbitrary bytes, every quill/std container (with the arithmetic shortcuts and forward_list's cached count), optional, pair, tuple, deferred-format POD and aligned non-POD, direct-format, StringRef and filesystem path, nested arbitrarily, and for every argument list, prior size-cache content/capacity and buffer address: the size pass reserves exactly the bytes the encode pass writes; the encode pass reads exactly the cache entries the size pass pushed, in order (empty optionals, shortcuts that push nothing, more than 12 entries after heap growth); decoding the written bytes at the statement's static shape consumes exactly those bytes and yields the documented value (C string cut at the first NUL, char[N] cut at NUL or N, std::string all bytes, null pointer ↦ empty), so the value seen by the backend is a function of the record alone (deep copy); header + arguments + optional 1-byte dynamic level: reserved = written = consumed; all of this after ANY history of earlier statements of the thread, each logged or dropped/rejected between the size pass and the encode pass (C04_drop_leaves_nothing: the size pass clears the cache at its start and the encode pass only reads it, so a dropped statement leaves nothing behind; the other placement of the clear() is refuted by a concrete witness); the sanitiser replaces exactly the bytes failing the printable predicate by \\xHH and is the identity otherwise. PARTIAL: libfmt is not modelled — 'text equals call-site formatting' is proved only up to 'fmt is a function of (format string, decoded values)' (C04_text_partial); that last step is tested by the harness oracle (fmtquill::format at the call site before the call vs the sink message after the arguments were overwritten and destroyed, every macro family). Tied to the code by extraction (inline capacity, header formula, dynamic-level accounting, per-container prefix/shortcut/predicate table, clearing rule and WHERE the clear() sits / const-ness of the cache in detail::encode, printable predicate, escape format) with re-proved obligations, and by differential execution of the real Codec<T>::compute_encoded_size/encode/decode_arg, detail::encode/decode_and_store_args and the real macros against the model (size, cache content and capacity, cache index, hex of the bytes, bytes consumed, decoded view, queue bytes reserved/consumed; harness part 7: BoundedDropping 16 KiB queue on the main thread and UnboundedDropping queue with a 16 KiB maximum on a helper thread, filled until they refuse, one or two statements with cached-length arguments dropped — or rejected by QuillError for exceeding the maximum — by the real log_statement, queue drained, next statement compared with call-site formatting).",
         note="partial: fmt itself is a parameter of the theorem; wide strings (Windows only) excluded; values the C++ truncates (strings ≥ 2^32−2 bytes, containers ≥ 2^32 elements) are outside `wf`; alignof is assumed to be a power of two.",
         ref="§5 C04, §4.2"),
     "C11": dict(
-        technique="Lean 4 proof on the frontend event model (context creation, InlinedVector growth, unbounded-queue growth, user copy/format calls) + extraction of the inline capacity and formatter call sites; measured correspondence with interposed allocators and formatter thread ids",
-        text="Machine-checked proof (Lean 4) that in the model of a log call the allocation events are exactly {thread-context creation on the first call} ∪ {InlinedVector growth when the number of cached lengths exceeds its current capacity} ∪ {unbounded-queue growth when the record does not fit}, plus the documented exclusions (filesystem::path temporary, copy constructor of a non trivially copyable deferred-format type); hence with a registered context, at most N cached lengths (N extracted, obligation N = 12) and a fitting record the event list is empty for every argument list of the listed types; deferred-format arguments are copied (memcpy / placement copy) with no formatter call on the frontend, direct-format arguments incur the formatter calls of the size and encode passes (two per argument). Finding F16 (the std::map / std::unordered_map codecs copied every pair<const Key,T> element into a pair<Key,T> temporary in both passes — one allocation per non-SSO string on the caller) was found by this check, is proved as a negation witness for the extracted flag pairTemp = true, and is repaired in /repo; the obligation pairTemp = false (own module) now holds and maps of listed types are covered in full; the corpus replay reports a reversion. PARTIAL: the model cannot see a temporary inside libstdc++/libfmt or one introduced by a rewrite of the C++ — only the measured correspondence can, and that is testing: harness H5 interposes operator new/delete, malloc/calloc/realloc/posix_memalign/aligned_alloc and mmap, counts allocations on the calling thread inside each log call (first call, then steady state) for the C04 shapes and every macro family, compares them with the model's predicted event counts (including the cases that must allocate: 13+ cached lengths, record larger than the queue) and checks that user formatters ran on the backend thread for deferred types and on the caller for direct-format types.",
+        technique="Lean 4 proof on the frontend event model (context creation, InlinedVector growth, unbounded-queue growth, user copy/format calls) over histories of log calls and backend passes of one thread + extraction of the inline capacity, the container families that cache their element count, the publish-on-drain clause of commit_read and the formatter call sites; measured correspondence with interposed allocators and formatter thread ids, the expected allocations being the model's (the driver carries the model's own state of each calling thread from its first call on)",
+        text="Machine-checked proof (Lean 4) that in the model of a log call the allocation events are exactly {thread-context creation on the first call} ∪ {InlinedVector growth when the number of cached lengths exceeds its current capacity} ∪ {unbounded-queue growth when the record does not fit}, plus the documented exclusions (filesystem::path temporary, copy constructor of a non trivially copyable deferred-format type); hence with a registered context, at most N cached lengths (N extracted, obligation N = 12) and a fitting record the event list is empty for every argument list of the listed types; the cached lengths are one per C string / char[N] / direct-format argument (plus one per forward_list) and nothing else — twelve C strings next to any number of containers/optionals/pairs of non-strings never reallocate the cache (C11_cstr_budget, C11_container_slots; obligation alloc_count_slots pins the extracted table to that budget); after ANY history of log calls and backend passes that ends with a pass draining the thread's queue, a record fits iff it does not exceed the capacity of the current buffer, so such a statement allocates nothing (C11_no_events_after_drain; commit_read publishing the reader position on drain is an obligation, and its absence is refuted by a concrete witness: three drained 36-byte records, then capacity−8 bytes ⇒ a 256 KiB node is allocated); deferred-format arguments are copied (memcpy / placement copy) with no formatter call on the frontend, direct-format arguments incur the formatter calls of the size and encode passes (two per argument). Finding F16 (the std::map / std::unordered_map codecs copied every pair<const Key,T> element into a pair<Key,T> temporary in both passes — one allocation per non-SSO string on the caller) was found by this check, is proved as a negation witness for the extracted flag pairTemp = true, and is repaired in /repo; the obligation pairTemp = false (own module) now holds and maps of listed types are covered in full; the corpus replay reports a reversion. PARTIAL: the model cannot see a temporary inside libstdc++/libfmt or one introduced by a rewrite of the C++ — only the measured correspondence can, and that is testing: harness H5 interposes operator new/delete, malloc/calloc/realloc/posix_memalign/aligned_alloc and mmap, counts allocations on the calling thread inside each log call (first call, then steady state) for the C04 shapes and every macro family, compares them with the model's predicted event counts (including the cases that must allocate: 13+ cached lengths, record larger than the queue; boundary scenarios each on a fresh thread whose cache never grew, measured on the first occurrence: 12 C strings + list/vector/deque/array/set/map/optional/pair of non-strings, list/vector/deque<char const*> of 12 and 13, forward_list of 11 and 12; and drained-queue scenarios: small records each fully consumed, then one record of capacity−k bytes for k around 0, the 5 % publish batch and beyond, capacity+1, and the same against a queue that still holds 50000 unread bytes) and checks that user formatters ran on the backend thread for deferred types and on the caller for direct-format types.",
         note="partial (measured, not proved, for anything inside libstdc++/libfmt or outside the modelled functions); bounded-queue variants follow from the same event model with maxCap = 0.",
         ref="§5 C11, §4.2"),
 }
@@ -29,13 +31,18 @@ THEOREMS = {
     "C04": ["Codec.C04_reserved_eq_written", "Codec.C04_reserved_eq_written_list", "Codec.C04_index_alignment",
             "Codec.C04_window_exact", "Codec.C04_optional_alignment", "Codec.C04_fast_path_alignment", "Codec.C04_growth_keeps_entries",
             "Codec.C04_decode_encode", "Codec.C04_bytes_determine_view", "Codec.C04_framing",
+            "Codec.C04_drop_leaves_nothing", "Codec.C04_framing_after_drops", "Codec.C04_clear_position_matters",
             "Codec.C04_sanitize_spec", "Codec.C04_sanitize_id", "Codec.C04_sanitize_length", "Codec.C04_text_partial",
             "Codec.sizePass_spec", "Codec.encode_spec", "Codec.encode_short", "Codec.decode_spec",
             "Obligations.codec_extraction_complete", "Obligations.codec_cache_elem", "Obligations.codec_kinds_ok",
             "Obligations.codec_kind_names", "Obligations.codec_fast_traits", "Obligations.codec_framing_consistent",
-            "Obligations.codec_clear_rule", "Obligations.codec_escape_format", "Obligations.codec_events",
+            "Obligations.codec_clear_rule", "Obligations.codec_clear_position", "Obligations.C04_extracted_after_drops",
+            "Obligations.codec_escape_format", "Obligations.codec_events",
             "Obligations.codec_user_codecs", "Obligations.C04_extracted"],
     "C11": ["Codec.C11_events_exact", "Codec.C11_cache_growth_iff", "Codec.C11_queue_growth_iff", "Codec.C11_no_events", "Codec.C11_steady_state",
+            "Codec.C11_cstr_budget", "Codec.C11_container_slots", "Codec.C11_drained_fits_iff", "Codec.C11_no_events_after_drain",
+            "Codec.C11_oversize_allocates", "Codec.C11_drain_without_publish_allocates",
+            "Obligations.alloc_count_slots", "Obligations.alloc_drain_publishes", "Obligations.C11_extracted_after_drain",
             "Codec.C11_formatter_calls", "Codec.C11_deferred_no_format",
             "Obligations.codec_extraction_complete", "Obligations.alloc_cache_geometry",
             "Codec.C11_map_pair_temporary_allocates", "Codec.C11_listed_of_no_pair_temporaries",
@@ -46,7 +53,8 @@ MODULES = {"C04": ["QuillModel.Props.C04"], "C11": ["QuillModel.Props.C11"]}
 OBLIG = {"C04": ["QuillModel.Obligations.Codec"],
          "C11": ["QuillModel.Obligations.Codec", "QuillModel.Obligations.CodecAlloc", "QuillModel.Obligations.CodecAllocMap"]}
 
-H3_PARTS = [1, 2, 3, 4, 5, 6]
+H3_PARTS = [1, 2, 3, 4, 5, 6, 7]
+MAX_PARALLEL = 6  # compilers / harness processes at a time (the machine is shared)
 H3_FLAGS = ["-fno-access-control", "-O0", "-fno-sanitize=nonnull-attribute"]
 
 ASSUMPTIONS = {
@@ -68,7 +76,7 @@ def build_parts(parts=H3_PARTS):
     def one(k):
         return k, vlib.build_harness("h3_codec_p%d" % k, ["h3_codec.cpp"], extra_flags=H3_FLAGS + ["-DH3_PART=%d" % k])
     bins, err = {}, None
-    with concurrent.futures.ThreadPoolExecutor(max_workers=len(parts)) as ex:
+    with concurrent.futures.ThreadPoolExecutor(max_workers=min(MAX_PARALLEL, len(parts))) as ex:
         for k, (ok, path, log) in ex.map(one, parts):
             if ok:
                 bins[k] = path
@@ -82,7 +90,7 @@ def run_parts(bins, args, timeout=1500):
     def one(k):
         return k, vlib.sh([bins[k]] + args, env=vlib.ASAN_ENV, timeout=timeout)
     out = {}
-    with concurrent.futures.ThreadPoolExecutor(max_workers=len(bins)) as ex:
+    with concurrent.futures.ThreadPoolExecutor(max_workers=min(MAX_PARALLEL, len(bins))) as ex:
         for k, r in ex.map(one, sorted(bins)):
             out[k] = r
     return out
@@ -149,9 +157,9 @@ def run_c04(ck, tier):
                     oracle_hits.append((label, k, ln, text, replay_line))
                 elif ln.startswith("STATS"):
                     stats_lines.append("%s part%d: %s" % (label, k, ln))
-            if len(samples) < 3:
+            if len(samples) < 3 or (k == 7 and not any(" edrop " in x["line"] for x in samples)):
                 for ln in text.split("\n"):
-                    if ln.startswith("case ") and len(ln) < 400 and (" stmt " in ln or " e2e " in ln or "fwd" in ln):
+                    if ln.startswith("case ") and len(ln) < 400 and (" stmt " in ln or " e2e " in ln or " edrop " in ln or "fwd" in ln):
                         samples.append({"source": "%s part%d" % (label, k), "line": ln})
                         break
 
@@ -284,12 +292,20 @@ def run_c11(ck, tier):
                 traces.append(label + ": " + ln)
             elif ln.startswith(("MISMATCH", "MODEL-", "BAD-")):
                 mismatches.append((label, ln, replay_line))
+            elif ln.startswith("ORACLE"):
+                # the property evaluated by the model on this very input (steady state, record fits the drained queue,
+                # at most twelve C strings …: no allocation predicted) against the measurement on the real code
+                oracle_hits.append((label, ln, replay_line))
         for ln in text.split("\n"):
             if ln.startswith("ORACLE"):
                 oracle_hits.append((label, ln, replay_line))
             elif ln.startswith("STATS"):
                 stats_lines.append(label + ": " + ln)
             elif ln.startswith("case ") and len(samples) < 4 and len(ln) < 500 and ("13cstr" in ln or "direct" in ln or "big" in ln or "mix" in ln):
+                samples.append({"source": label, "line": ln})
+            elif ln.startswith("case ") and len(ln) < 700 and (
+                    (" d-cap-8.s3 " in ln and "a=S~" in ln and not any(" d-cap-8.s3 " in x["line"] for x in samples)) or
+                    (" b-12cstr+opt<i32> " in ln and not any(" b-12cstr+opt<i32> " in x["line"] for x in samples))):
                 samples.append({"source": label, "line": ln})
 
     cdir = os.path.join(vlib.VERIF, "corpus", "C11")
@@ -384,9 +400,13 @@ def replay(prop, path):
     rc, text = vlib.sh([hbin, "replay", path], timeout=600)
     hits = [l for l in text.split("\n") if l.startswith("ORACLE")]
     rc2, dout = vlib.driver(["codec", "run"], stdin_data=text.encode())
+    dlines = dout.split("\n")
+    hits += [l for l in dlines if l.startswith("ORACLE")]
     for l in hits[:20]:
         print(l[:2000])
-    for l in dout.split("\n"):
-        if l.startswith(("MISMATCH", "MODEL-", "BAD-", "TRACE", "DONE")):
+    shown = 0
+    for l in dlines:
+        if l.startswith(("TRACE", "DONE")) or (l.startswith(("MISMATCH", "MODEL-", "BAD-")) and shown < 20):
+            shown += l.startswith(("MISMATCH", "MODEL-", "BAD-"))
             print(l[:2000])
     return 1 if hits or rc not in (0, 3) else 0
